@@ -31,7 +31,7 @@ func init() {
 		Run: c17Run,
 		Floors: func(m *Merged, tier string) []string {
 			var u []string
-			for _, c := range []string{"overlap_hash_path", "overlap_scan_path", "overlap_true", "overlap_false", "in_true", "in_false", "empty_literal_left", "empty_literal_right", "type_mismatch_errors", "sets_accepted", "symmetry_checked", "folded", "shared_is_max_first", "single_element_lists", "refill_in", "refill_overlap", "nil_slice_list_variables"} {
+			for _, c := range []string{"overlap_hash_path", "overlap_scan_path", "overlap_true", "overlap_false", "in_true", "in_false", "empty_literal_left", "empty_literal_right", "type_mismatch_errors", "sets_accepted", "symmetry_checked", "folded", "shared_is_max_first", "single_element_lists", "refill_in", "refill_overlap", "nil_slice_list_variables", "padded_integer_literals"} {
 				if m.C(c) == 0 {
 					u = append(u, c+" = 0")
 				}
@@ -179,6 +179,7 @@ func c17Run(w *W, idx int) {
 	}
 	c17Mismatch(w, r, la, lb)
 	c17Refill(w, r, la, lb, isS)
+	c17Padded(w, r)
 	w.Count("nil_slice_list_variables", int64(c17NilLists))
 	c17NilLists = 0
 }
@@ -553,4 +554,68 @@ func maxI(a, b int) int {
 		return a
 	}
 	return b
+}
+
+// c17Padded: integer list elements written with leading zeros (codes, identifiers) are decimal numbers like every
+// other integer literal.
+func c17Padded(w *W, r *rand.Rand) {
+	n := []int{2, 3, 6, 40, 120}[r.Intn(5)]
+	vals := make([]int64, n)
+	txt := make([]string, n)
+	for i := range vals {
+		vals[i] = int64(r.Intn(400))
+		if r.Intn(4) == 0 {
+			vals[i] = []int64{8, 9, 10, 18, 19, 64, 77, 80, 100}[r.Intn(9)]
+		}
+		txt[i] = fmt.Sprintf("%0*d", 1+r.Intn(5), vals[i])
+		if r.Intn(8) == 0 {
+			txt[i] = "-" + txt[i]
+			vals[i] = -vals[i]
+		}
+	}
+	has := map[int64]bool{}
+	for _, v := range vals {
+		has[v] = true
+	}
+	list := "(" + strings.Join(txt, " ") + ")"
+	probe := vals[r.Intn(n)]
+	if r.Intn(2) == 0 {
+		probe = int64(r.Intn(120))
+	}
+	type c struct {
+		src  string
+		want bool
+	}
+	other := []int64{probe, 100000}
+	cases := []c{
+		{fmt.Sprintf("(in %d %s)", probe, list), has[probe]},
+		{fmt.Sprintf("(in %0*d %s)", 1+r.Intn(5), absI(probe), list), has[absI(probe)]},
+		{fmt.Sprintf("(overlap (%d %d) %s)", other[0], other[1], list), has[probe]},
+		{fmt.Sprintf("(overlap %s (%d %d))", list, other[1], other[0]), has[probe]},
+		{fmt.Sprintf("(= %0*d %d)", 2+r.Intn(4), absI(probe), absI(probe)), true},
+	}
+	for _, cs := range cases {
+		for _, opts := range []OptSet{OptNone, OptAll} {
+			cc := buildConfig(CaseCfg{Opts: opts, Custom: stdCustom}, nil)
+			e, co := compileGuard(cc, cs.src)
+			w.Evals++
+			w.Inc("padded_integer_literals")
+			if co.Panic != nil || co.Err != nil {
+				w.Fail("padded-integer-literal/compile", "%s does not compile: %s", firstN(cs.src, 600), co)
+				continue
+			}
+			o := guard(func() (eval.Value, error) { return e.Eval(eval.NewCtxFromVars(cc, nil)) })
+			w.Evals++
+			if o.Panic != nil || o.Err != nil || o.V != cs.want {
+				w.Fail("padded-integer-literal/wrong", "%s = %s, expected %v (integer literals are decimal, leading zeros included; options %s)", firstN(cs.src, 600), o, cs.want, opts)
+			}
+		}
+	}
+}
+
+func absI(v int64) int64 {
+	if v < 0 {
+		return -v
+	}
+	return v
 }
